@@ -58,12 +58,22 @@ DeletedTopicNotified(v) ==
                             /\ \/ v.ev[j].e = "pres" /\ v.ev[j].text = "gone" /\ v.ev[j].src = x.t
                                \/ v.ev[j].e = "ctrl" /\ v.ev[j].text = "evicted" /\ v.ev[j].t = x.t
 
+\* after a store fault failed a request, the quiet probe (leave by everybody attached, later a {sub} by a member) gets
+\* normal replies: px = "ok" -> 200/304; px = "norm" -> answered, not 503 and not a server error
+ProbeAfterFault(v) ==
+  \A i \in DOMAIN v.ev :
+     (IsReq(v.ev[i]) /\ v.ev[i].px # "") =>
+        \E j \in DOMAIN v.ev : /\ j > i /\ v.ev[j].e = "ctrl" /\ v.ev[j].id = v.ev[i].id
+                                /\ (v.ev[i].px = "ok" => v.ev[j].code \in {200, 304})
+                                /\ (v.ev[i].px = "norm" => v.ev[j].code < 500)
+
 CheckSess(v) ==
   (IF ~RequestAnswered(v) THEN {"RequestAnswered"} ELSE {})
   \cup (IF ~DispatchReturns(v) THEN {"DispatchReturns"} ELSE {})
   \cup (IF ~CleanupReturns(v) THEN {"CleanupReturns"} ELSE {})
   \cup (IF ~DeletedTopicRefuses(v) THEN {"DeletedTopicRefuses"} ELSE {})
   \cup (IF ~DeletedTopicNotified(v) THEN {"DeletedTopicNotified"} ELSE {})
+  \cup (IF ~ProbeAfterFault(v) THEN {"ProbeAfterFault"} ELSE {})
 
 \* ------------------------------------------------------------------ a quiescent snapshot
 Att(v, t) == UNION {S(x.att) : x \in {y \in S(v.topics) : y.t = t /\ y.active}}
@@ -86,6 +96,8 @@ NoGhostSession(v) == \A x \in S(v.topics) : "?" \notin S(x.att)
 DeletedGone(v) ==
   \A d \in S(v.deleted) : /\ d.t \notin LoadedTopics(v)
                           /\ \A s \in S(v.sess) : s.live => d.t \notin S(s.subs)
+\* after the probe emptied the topic the idle timer unloads it (it was not left paused / half-deleted)
+FaultedTopicUnloads(v) == \A t \in S(v.mustUnload) : t \notin LoadedTopics(v)
 CheckSnap(v) ==
   IF ~v.quiesced THEN {"Quiesces"} ELSE
   (IF ~AttachSymmetry(v) THEN {"AttachSymmetry"} ELSE {})
@@ -93,6 +105,7 @@ CheckSnap(v) ==
   \cup (IF ~OnlineRestored(v) THEN {"OnlineRestored"} ELSE {})
   \cup (IF ~NoGhostSession(v) THEN {"NoGhostSession"} ELSE {})
   \cup (IF ~DeletedGone(v) THEN {"DeletedGone"} ELSE {})
+  \cup (IF ~FaultedTopicUnloads(v) THEN {"FaultedTopicUnloads"} ELSE {})
 
 \* ------------------------------------------------------------------ end of a run; race reports
 CheckRun(v) ==
@@ -113,9 +126,9 @@ ReplyCodes(kind) ==
   \* 401 everywhere: the session's own account was deleted meanwhile (account deletion is outside Attach.tla)
   CASE kind = "sub"      -> {200, 304, 503, 404, 500, 403, 401}   \* attached | already | locked/queue full | load failed (not found, store error) | refused
     [] kind = "leave"    -> {200, 304, 503, 404, 401}              \* left | not joined | locked
-    [] kind = "unsub"    -> {200, 304, 403, 409, 503, 404, 401}    \* unsubscribed+evicted | no action | owner/me | attach first | locked
+    [] kind = "unsub"    -> {200, 304, 403, 409, 503, 404, 500, 401}    \* unsubscribed+evicted | no action | owner/me | attach first | locked | store error
     [] kind = "deltopic" -> {200, 304, 403, 503, 404, 500, 401}    \* deleted | no action | forwarded: unsub classes
-    [] kind = "deluser"  -> {200, 401}
+    [] kind = "deluser"  -> {200, 500, 401}                        \* deleted | store error
     [] OTHER             -> 0..999
 \* at most one subscribe/leave of a session is in flight (Add blocks): their replies come back in request order
 Inflight(e) == IsReq(e) /\ e.kind \in {"sub", "leave", "unsub"}
